@@ -135,7 +135,7 @@ def run(tier, seed):
                     'stream_after': repr(list(G.stream_interactions()))})
     rep.assumptions = ['PYTHONHASHSEED=0', 'identical structural state => identical futures (library is deterministic)',
                        'bulk twin = the preceding elements applied as single add_interaction calls']
-    return rep.finish(known, 'BFS over add_* histories, both classes, both removal modes; every transition whose call raises '
+    return rep.finish(known, base.UNIVERSE_NOTE[4:] + ' || ' + 'BFS over add_* histories, both classes, both removal modes; every transition whose call raises '
                              'ValueError/NetworkXError (single adds, missing t, bulk helpers failing at element 1..3) is compared: '
                              'full observable snapshot after the call == snapshot of the twin that never made it (bulk: that '
                              'executed only the preceding elements); if internals differ although observables agree, all depth-1 '
